@@ -44,8 +44,8 @@
 (*                                                                         *)
 (* Encoding (TLC cannot compare a string with an int): a value is          *)
 (* <<tag, payload>>; keys are ints 1 'a', 2 'b', 3 'x1', 100 + i = list    *)
-(* index i; classes 1 = A(a), 2 = B(a, x1); strings: "str" payload 1 's',  *)
-(* 2 't'.                                                                  *)
+(* index i, 4 'q]' (only in a few extra trees); classes 1 = A(a),          *)
+(* 2 = B(a, x1); strings: "str" payload 1 's', 2 't'.                      *)
 (***************************************************************************)
 EXTENDS Integers, Sequences, FiniteSets, TLC, SequencesExt, Randomization
 
@@ -73,6 +73,7 @@ MISv == <<"mis", 0>>              \* "no such location"
 KA == 1
 KB == 2
 KX == 3
+KQ == 4                             \* the key 'q]': a legitimate dict key whose printed path '[q]]' cannot be parsed back
 Idx(i) == 100 + i
 IsIdx(k) == k >= 100
 CA == 1
@@ -129,12 +130,14 @@ Rng(s) == {s[k] : k \in 1..Len(s)}
 -----------------------------------------------------------------------------
 (* 2. Path strings and regular expressions *)
 Digits == <<"0", "1", "2", "3", "4", "5", "6", "7", "8", "9">>
-KeyChars(k) == CASE k = KA -> <<"a">> [] k = KB -> <<"b">> [] k = KX -> <<"x", "1">> [] OTHER -> <<Digits[k - 100 + 1]>>
-\* KeyPath.__str__: dict / field keys joined by '.', list indices as '[i]'
+KeyChars(k) == CASE k = KA -> <<"a">> [] k = KB -> <<"b">> [] k = KX -> <<"x", "1">> [] k = KQ -> <<"q", "]">>
+                 [] OTHER -> <<Digits[k - 100 + 1]>>
+Bracketed(k) == IsIdx(k) \/ k = KQ
+\* KeyPath.__str__: dict / field keys joined by '.', list indices (and keys with special characters) as '[i]'
 RECURSIVE PathCharsFrom(_, _)
 PathCharsFrom(p, first) ==
   IF p = <<>> THEN <<>>
-  ELSE (IF IsIdx(Head(p)) THEN <<"[">> \o KeyChars(Head(p)) \o <<"]">>
+  ELSE (IF Bracketed(Head(p)) THEN <<"[">> \o KeyChars(Head(p)) \o <<"]">>
         ELSE (IF first THEN <<>> ELSE <<".">>) \o KeyChars(Head(p)))
        \o PathCharsFrom(Tail(p), FALSE)
 PathChars(p) == PathCharsFrom(p, TRUE)
@@ -393,7 +396,8 @@ Wheres == <<"any", "int", "str", "dict", "sym", "AB">>                          
 QWheres == <<"any", "int", "dict", "int_notA">>                                      \* query(where)
 QRegexes == <<<<"nore">>>> \o PathRegexes
 RwConds == FlattenSeq([i \in 1..Len(QRegexes) |-> [j \in 1..Len(QWheres) |-> <<"rw", QRegexes[i], QWheres[j]>>]])
-Selectors == RwConds \o PatchConds                                                    \* (path_regex, where) and custom selectors
+ExtraRw == <<<<"rw", <<"nore">>, "str">>, <<"rw", <<"nore">>, "sym">>, <<"rw", <<"nore">>, "AB">>>>       \* the other `where`s, no regex
+Selectors == RwConds \o ExtraRw \o PatchConds                                                    \* (path_regex, where) and custom selectors
 Opts == <<"ALL", "IMMEDIATE", "LEAF">>
 
 Vis(pc, pa, qc, qa) == [pc |-> pc, pa |-> pa, qc |-> qc, qa |-> qa]
@@ -440,7 +444,10 @@ Extras == {D1(KA, D1(KA, D1(KA, I1))),
            OA(D2(KA, I1, KX, Lv(<<I1>>))),
            OB(D1(KA, I1), OB(I1, I2)),
            OB(Lv(<<OA(I1), I1>>), D1(KB, D1(KA, S1))),
-           D2(KA, Lv(<<D1(KA, I1), D1(KB, I1)>>), KX, D1(KX, I1))}
+           D2(KA, Lv(<<D1(KA, I1), D1(KB, I1)>>), KX, D1(KX, I1)),
+           \* a key that is not an identifier
+           D1(KQ, I1), D2(KA, I1, KQ, I1), D2(KQ, D1(KA, I1), KB, S1), Lv(<<D1(KQ, I2)>>), OA(D1(KQ, I1)),
+           D1(KA, D1(KQ, Lv(<<I1>>)))}
 U == SetToSeq({v \in UNION {TT(n) : n \in 1..MaxSize} : IsCont(v)}) \o SetToSeq(Extras)
 N == Len(U)
 
